@@ -249,6 +249,22 @@ class PartialOps:
                 tp = path_of(right)
                 if kp and tp:
                     ev.append(f"in:{tp}@{kp}")
+        # P.fullmatch(s) is None / is not None
+        if (
+            isinstance(test, ast.Compare)
+            and len(test.ops) == 1
+            and isinstance(test.ops[0], (ast.Is, ast.IsNot))
+            and isinstance(test.comparators[0], ast.Constant)
+            and test.comparators[0].value is None
+            and isinstance(test.left, ast.Call)
+            and isinstance(test.left.func, ast.Attribute)
+            and test.left.func.attr in ("fullmatch", "match")
+            and len(test.left.args) == 1
+        ):
+            matched = (isinstance(test.ops[0], ast.IsNot) and branch) or (isinstance(test.ops[0], ast.Is) and not branch)
+            sp = path_of(test.left.args[0])
+            if matched and sp:
+                ev.append(f"rematch:{ast.unparse(test.left.func.value)}:{test.left.func.attr}@{sp}")
         if isinstance(test, ast.Call):
             f = test.func
             # recogniser predicate: self._int_like(E)
